@@ -226,8 +226,8 @@ def run_insert(fns, bq, br, timeout_ms):
                   ('insert_true_iff_new_class', z3.Implies(okv, val.payload == z3.Not(present)) if z3.is_expr(val.payload) else z3.BoolVal(True)),
                   (('len_is_number_of_classes', 'insert_err_len_unchanged'), st.fields[6] == z3.If(z3.And(okv, z3.Not(present)), total + 1, total)),
                   (('post_state_is_canonical_encoding', 'insert_err_state_unchanged'), same_state(st, e, NQ))]
-        mk = lambda mdl, tag: {'op': 'insert', 'bq': bq, 'br': br, 'members': members_of(mdl, bits, NQ, NR), 'y': [mdl.eval(yq, model_completion=True).as_long(), mdl.eval(yr, model_completion=True).as_long()]}
-        run_checks(out, checks, pre, pc, okv, mk, timeout_ms)
+        mkcex_i = lambda mdl, tag: {'op': 'insert', 'bq': bq, 'br': br, 'members': members_of(mdl, bits, NQ, NR), 'y': [mdl.eval(yq, model_completion=True).as_long(), mdl.eval(yr, model_completion=True).as_long()]}
+        run_checks(out, checks, pre, pc, okv, mkcex_i, timeout_ms)
         if solve([pre, pc, z3.Not(okv)], timeout_ms)[0] == z3.sat:
             fam['err_full'] = 1
         if solve([pre, pc, okv, z3.Not(present), total == NQ - 1], timeout_ms)[0] == z3.sat:
